@@ -903,6 +903,103 @@ def sec_filter(m):
     return lines
 
 
+def sec_dictlist(m):
+    lines = []
+    # --- C14: literal keys of the dict form (Node.to_dict / Node.from_dict) and the data_id test
+    node_mod = parse("node.py")
+    ncls = class_def(node_mod, "Node")
+    td = func_def(ncls, "to_dict")
+    found = []
+    for n in ast.walk(td):
+        if isinstance(n, ast.Dict) and n.keys and all(isinstance(k, ast.Constant) and isinstance(k.value, str) for k in n.keys):
+            for k in n.keys:
+                found.append((k.lineno, k.col_offset, k.value))
+        if (isinstance(n, ast.Subscript) and isinstance(n.ctx, ast.Store) and isinstance(n.value, ast.Name) and n.value.id == "res"):
+            found.append((n.lineno, n.col_offset, const_str(n.slice)))
+    if not found:
+        raise Unsupported("Node.to_dict: no literal keys found")
+    lines.append("Definition TO_DICT_KEYS : list (list Z) := [" + "; ".join(text(k) for _, _, k in sorted(found)) + "].")
+    # shape of the data_id test: 1 = [if self._data_id != hash(self._data):] (raises for unhashable data, D30b);
+    # 2 = [try: is_default = self._data_id == hash(self._data) / except TypeError: is_default = False] + [if not is_default:]
+    def is_self_attr(n, attr):
+        return isinstance(n, ast.Attribute) and n.attr == attr and isinstance(n.value, ast.Name) and n.value.id == "self"
+
+    def is_hash_of_data(n):
+        return (isinstance(n, ast.Call) and isinstance(n.func, ast.Name) and n.func.id == "hash" and len(n.args) == 1
+                and is_self_attr(n.args[0], "_data"))
+
+    def sets_data_id(st):
+        return isinstance(st, ast.If) and any(
+            isinstance(b, ast.Assign) and isinstance(b.targets[0], ast.Subscript) and isinstance(b.targets[0].slice, ast.Constant)
+            and b.targets[0].slice.value == "data_id" and is_self_attr(b.value, "_data_id") for b in st.body)
+
+    def guarded_try(st):
+        if not (isinstance(st, ast.Try) and len(st.body) == 1 and len(st.handlers) == 1 and not st.orelse and not st.finalbody):
+            return None
+        b, h = st.body[0], st.handlers[0]
+        if not (isinstance(b, ast.Assign) and isinstance(b.targets[0], ast.Name) and isinstance(b.value, ast.Compare)
+                and len(b.value.ops) == 1 and isinstance(b.value.ops[0], ast.Eq) and is_self_attr(b.value.left, "_data_id")
+                and is_hash_of_data(b.value.comparators[0])):
+            return None
+        if not (isinstance(h.type, ast.Name) and h.type.id == "TypeError" and len(h.body) == 1 and isinstance(h.body[0], ast.Assign)
+                and isinstance(h.body[0].targets[0], ast.Name) and h.body[0].targets[0].id == b.targets[0].id
+                and isinstance(h.body[0].value, ast.Constant) and h.body[0].value.value is False):
+            return None
+        return b.targets[0].id
+
+    id_test = 0
+    flag = None
+    for st in td.body:
+        g = guarded_try(st)
+        if g:
+            flag = g
+        if sets_data_id(st):
+            t = st.test
+            if (isinstance(t, ast.Compare) and len(t.ops) == 1 and isinstance(t.ops[0], ast.NotEq)
+                    and is_self_attr(t.left, "_data_id") and is_hash_of_data(t.comparators[0])):
+                id_test = 1
+            elif (flag and isinstance(t, ast.UnaryOp) and isinstance(t.op, ast.Not) and isinstance(t.operand, ast.Name)
+                  and t.operand.id == flag):
+                id_test = 2
+    lines.append(f"Definition TO_DICT_ID_TEST : Z := {id_test}%Z.")
+    # statement skeleton of Node.to_dict: 0 res = {...}; 5 try: is_default = ...; 1 if <id test>: res["data_id"] = ...; 2 res = call_mapper(...);
+    # 3 if self._children: ...; 4 return res; 9 anything else (doc strings skipped)
+    skel = []
+    for st in td.body:
+        if isinstance(st, ast.Expr) and isinstance(st.value, ast.Constant) and isinstance(st.value.value, str):
+            continue
+        if isinstance(st, (ast.Assign, ast.AnnAssign)) and isinstance(st.value, ast.Dict):
+            skel.append(0)
+        elif sets_data_id(st):
+            skel.append(1)
+        elif guarded_try(st):
+            skel.append(5)
+        elif (isinstance(st, ast.Assign) and isinstance(st.value, ast.Call) and isinstance(st.value.func, ast.Name)
+              and st.value.func.id == "call_mapper"):
+            skel.append(2)
+        elif (isinstance(st, ast.If) and isinstance(st.test, ast.Attribute) and st.test.attr == "_children"
+              and any("children" == getattr(getattr(n, "slice", None), "value", None) for b in st.body for n in ast.walk(b)
+                      if isinstance(n, ast.Subscript))):
+            skel.append(3)
+        elif isinstance(st, ast.Return):
+            skel.append(4)
+        else:
+            skel.append(9)
+    lines.append("Definition TO_DICT_SKELETON : list Z := [" + "; ".join(f"{k}%Z" for k in skel) + "].")
+    fdn = func_def(ncls, "from_dict")
+    found = []
+    for n in ast.walk(fdn):
+        if (isinstance(n, ast.Subscript) and isinstance(n.ctx, ast.Load) and isinstance(n.value, ast.Name) and n.value.id == "item"):
+            found.append((n.lineno, n.col_offset, const_str(n.slice)))
+        if (isinstance(n, ast.Call) and isinstance(n.func, ast.Attribute) and n.func.attr == "get"
+                and isinstance(n.func.value, ast.Name) and n.func.value.id == "item" and len(n.args) == 1):
+            found.append((n.lineno, n.col_offset, const_str(n.args[0])))
+    if not found:
+        raise Unsupported("Node.from_dict: no literal keys found")
+    lines.append("Definition FROM_DICT_KEYS : list (list Z) := [" + "; ".join(text(k) for _, _, k in sorted(found)) + "].")
+    return lines
+
+
 def sec_lock(m):
     tree, typed, fs, dot = m["tree"], m["typed"], m["fs"], m["dot"]
     tcls = class_def(tree, "Tree")
@@ -951,6 +1048,7 @@ SECTIONS = [
     ("TRAVERSE", sec_traverse, ["node"]),
     ("TREEGEN", sec_treegen, []),
     ("FILTER", sec_filter, []),
+    ("DICTLIST", sec_dictlist, []),
     ("LOCK", sec_lock, ["tree", "typed", "fs", "dot", "node"]),
 ]
 FILES = dict(common="common.py", tree="tree.py", typed="typed_tree.py", fs="fs.py", diff="diff.py", mermaid="mermaid.py",
